@@ -80,7 +80,8 @@ def run_ddsmt(workdir, text, spec, opts, mode='blackbox', plan=None, spec_cc=Non
         # a file name with blanks, parentheses and a non-ASCII letter
         infile_name = 'my input (1) ü' + ext
     infile = os.path.join(workdir, infile_name or ('input' + ext))
-    outfile = os.path.join(workdir, 'output' + ext)
+    # the candidates handed to the command carry the INPUT file's extension, whatever the output is called
+    outfile = os.path.join(workdir, 'output' + (ext if crc % 4 != 1 else '.min'))
     with open(infile, 'w', newline='') as f:
         f.write(text)
     r.stale_left = False
